@@ -3,6 +3,7 @@
 set -u
 VERIF=/verif
 export CARGO_NET_OFFLINE=true
+unset CARGO_TARGET_DIR
 export CARGO_TERM_COLOR=never
 mkdir -p "$VERIF/.target-daemon"
 log=$VERIF/.target-daemon/build.log
